@@ -95,7 +95,8 @@ def model_join(rng):
     conj = []
     kinds = []
     for _ in range(r.randint(0, 3)):
-        k = r.choice(['model-eq', 'model-eq', 'table-cmp', 'table-cmp', 'table-in', 'model-gt', 'not-model-eq', 'not-table', 'or-mix', 'func-wrapped', 'cross'])
+        k = r.choice(['model-eq', 'model-eq', 'table-cmp', 'table-cmp', 'table-in', 'model-gt', 'not-model-eq', 'not-table', 'or-mix', 'func-wrapped', 'cross',
+                      'model-between', 'table-between', 'model-in', 'model-isnull', 'model-like', 'table-like'])
         kinds.append(k)
         if k == 'model-eq':
             conj.append(f"m.{r.choice(['p1', 'p2', 'y'])} = {r.choice(['1', chr(39) + 'v' + chr(39), '2.5'])}")
@@ -113,6 +114,18 @@ def model_join(rng):
             conj.append('(m.p1 = 1 OR t.a = 2)')
         elif k == 'func-wrapped':
             conj.append('abs(t.a) = 1')
+        elif k == 'model-between':
+            conj.append('m.p4 BETWEEN 1 AND 5')
+        elif k == 'table-between':
+            conj.append('t.a BETWEEN 1 AND 3')
+        elif k == 'model-in':
+            conj.append('m.p5 IN (1, 2)')
+        elif k == 'model-isnull':
+            conj.append(r.choice(['m.p6 IS NULL', 'm.p6 IS NOT NULL']))
+        elif k == 'model-like':
+            conj.append("m.p7 LIKE 'x%'")
+        elif k == 'table-like':
+            conj.append("t.a LIKE '1%'")
         else:
             conj.append('t.a = m.p9')
     s = f'SELECT {r.choice(["*", "t.id, m.y", "t.*, m.y AS pred", "m.*"])} FROM {frm}'
@@ -195,7 +208,18 @@ def ts_join(rng):
 
 def dml(rng):
     r = rng
-    k = r.choice(['insert-select', 'insert-select-join', 'insert-values', 'update-from', 'update', 'delete-sub', 'delete', 'create-as', 'create-cols', 'create-as-model'])
+    k = r.choice(['insert-select', 'insert-select-join', 'insert-values', 'update-from', 'update', 'delete-sub', 'delete', 'create-as', 'create-cols', 'create-as-model',
+                  'insert-select-derived', 'create-as-derived', 'insert-select-union', 'delete-sub-derived', 'insert-select-cte'])
+    if k == 'insert-select-derived':
+        return k, 'INSERT INTO int2.newt (a, b) SELECT s.id, s.a FROM (SELECT p.id, p.a FROM int1.t1 AS p WHERE p.a > 1) AS s WHERE s.id < 9'
+    if k == 'create-as-derived':
+        return k, 'CREATE TABLE int2.newt (SELECT s.id, s.a FROM (SELECT p.id, p.a FROM int1.t1 AS p) AS s)'
+    if k == 'insert-select-union':
+        return k, 'INSERT INTO int2.newt (a) SELECT p.id FROM int1.t1 AS p UNION SELECT s.id FROM (SELECT q.id FROM int3.t3 AS q) AS s'
+    if k == 'delete-sub-derived':
+        return k, 'DELETE FROM int1.t1 WHERE id IN (SELECT s.id FROM (SELECT q.id FROM int2.t2 AS q WHERE q.a = 1) AS s)'
+    if k == 'insert-select-cte':
+        return k, 'INSERT INTO int2.newt (a) WITH c AS (SELECT p.id FROM int1.t1 AS p) SELECT c.id FROM c' if False else 'INSERT INTO int2.newt (a, b) SELECT s.id, u.a FROM (SELECT p.id FROM int1.t1 AS p) AS s JOIN int2.t2 AS u ON s.id = u.id'
     if k == 'insert-select':
         return k, f'INSERT INTO int2.newt (a, b) SELECT p.id, p.a FROM int1.t1 AS p WHERE p.a > 1'
     if k == 'insert-select-join':
